@@ -30,6 +30,9 @@ TABLED = {
     "neighbors.voropp_neighbors.get_input": "coordinates are handed to the external voro++ program together with the box bounds",
     "static.nematic.NematicOrder.tensor": "the `positions` field of the orientation trajectory holds unit orientation vectors, not coordinates",
 }
+TABLED_PREFIX = {
+    "dynamic.dynamics.": "inter-frame displacements of the dynamics module (any helper of it); their imaging is decided under C06",
+}
 SKIP_MODULES = ("PyMatterSim.reader.", "PyMatterSim.writer.")
 
 
@@ -189,7 +192,7 @@ def run(run: Run, pkg: Package) -> None:
                         continue
                     seen[key] = True
                     nocc += 1
-                    tabled = TABLED.get(fq)
+                    tabled = TABLED.get(fq) or next((v for k, v in TABLED_PREFIX.items() if fq.startswith(k)), None)
                     ok = cls in OK_CLASSES or cls.startswith("passed:")
                     if ok:
                         run.ob("R-PBC-FLOW", fq, key, True, f"coordinates enter this value as: {cls}", show(atom)[:60], loc=loc_of(it, ev))
